@@ -64,10 +64,15 @@ def r1(cx):
                 consts.append(v)
     cx.check(H in consts, "reader header parse advances by the shared header-size constant", "reader-header-const", pb.where())
     # padding rule: both sides compare `left < HEADER_SIZE`
-    mb = f.body("Writer::maybe_switch_to_new_block")
+    # the writer's padding decision lives in a private helper today (maybe_switch_to_new_block); structurally it is the
+    # function of `impl Writer` that compares against HEADER_SIZE and, controlled by that test, appends padding
+    mb = f.body("Writer::maybe_switch_to_new_block") if f.has_body("Writer::maybe_switch_to_new_block") else f.body("Writer::add_record")
     n = 0
     for body, what, target_pat in ((mb, "writer pads", "WritableFile::append"), (nb, "reader skips to next block", "wal::reader::Reader::read_more")):
         tg = sites(cx, body, target_pat)
+        if body is mb and len(tg) > 1:
+            # inside add_record there are further appends (through emit_physical_record): the padding append is the direct one
+            tg = [c for c in tg if c.names & {"WritableFile::append"} and not c.copy_of] or tg
         for cmp_ in comparisons(body):
             rv = const_eval(f, body, cmp_.rhs)
             lv = const_eval(f, body, cmp_.lhs)
@@ -284,11 +289,18 @@ def r6(cx):
     from ..e3 import Region
     f = cx.f
     wb = f.body("Writer::add_record")
-    ms = [c for c in wb.calls_to("Writer::maybe_switch_to_new_block") if wb.in_cycle(c.bb)]
-    if not ms:
+    # the fragment loop: the cycle that contains the emit_physical_record call; its head is the block of the cycle
+    # that is entered from outside
+    em = [c for c in wb.calls_to("Writer::emit_physical_record") if wb.in_cycle(c.bb)]
+    if not em:
         raise AnchorMissing("Writer::add_record: fragment loop not found")
+    cyc = {x for x in wb.reachable_after([em[0].bb]) if em[0].bb in wb.reachable_after([x])} | {em[0].bb}
+    heads = sorted(x for x in cyc if any(p not in cyc for p in wb.pred[x]) and not wb.blocks[x]["c"])
+    if not heads:
+        raise AnchorMissing("Writer::add_record: fragment loop has no entry block")
+    head = heads[0]
     names = {l: "begin" for l, (ty, nm) in enumerate(wb.locals) if ty == "bool" and nm == "begin"}
-    leaves = Region(wb, ms[0].bb, stops={ms[0].bb: "next"}, capture={"Writer::emit_physical_record": ("type", 1)}, local_names=names).run()
+    leaves = Region(wb, head, stops={head: "next"}, capture={"Writer::emit_physical_record": ("type", 1)}, local_names=names).run()
     wt = {}
     for lf in leaves:
         ty = [m.split("=")[1].replace("RecordType::", "").replace("()", "") for m in lf.marks if m.startswith("type=")]
